@@ -46,11 +46,15 @@ func (c c03) Level() string {
 	}
 	return "exploration"
 }
+func (c c03) ruleExtra() string {
+	return " Since round 3: caller lookup off / exact / cached (fastCaller, expected location per entry point learnt from a sequential calibration run); context fields are one request-scoped slice with spare capacity shared by the events of a request; C20 also acknowledges two-line raw writes through the named handle."
+}
+
 func (c c03) Rule() string {
 	if c.ack {
-		return "case = synchronous logger on the simulated console stream / file / rolling file (both layouts, configuration rendered in a random spelling), 1-4 client tasks with 1-N logging calls, scheduling tape; drawn by rapid from the seed. Crash points: the simulated OS state (simos inode contents, console stream) is monotone (checked: no truncation), so a kill at any point after an acknowledged call leaves at least the state at the acknowledgement; the harness records the length of every sink at the step each call returns and requires the call's complete line inside that prefix - i.e. every crash point after every acknowledgement of every explored schedule is enumerated. Non-trivial = at least 2 acknowledgements checked and at least one preemption; distinct = distinct context-switch trace hashes."
+		return "case = synchronous logger on the simulated console stream / file / rolling file (both layouts, configuration rendered in a random spelling), 1-4 client tasks with 1-N logging calls, scheduling tape; drawn by rapid from the seed. Crash points: the simulated OS state (simos inode contents, console stream) is monotone (checked: no truncation), so a kill at any point after an acknowledged call leaves at least the state at the acknowledgement; the harness records the length of every sink at the step each call returns and requires the call's complete line inside that prefix - i.e. every crash point after every acknowledgement of every explored schedule is enumerated. Non-trivial = at least 2 acknowledgements checked and at least one preemption; distinct = distinct context-switch trace hashes." + c.ruleExtra()
 	}
-	return "case = (sink configuration rendered in a random spelling, per-task lists of logging calls with payload sizes, pool mode, sink chunking/slowness, scheduling tape) drawn by rapid from the seed; executed under the token-passing scheduler. Non-trivial = at least one preemption (a runnable task was switched away from) AND the reach probe fired (a task obtained a pooled buffer or entered a sink write while another task's sink write was unfinished). distinct = distinct hashes of the context-switch trace (task, yield site at every switch, environment actions)."
+	return "case = (sink configuration rendered in a random spelling, per-task lists of logging calls with payload sizes, pool mode, sink chunking/slowness, scheduling tape) drawn by rapid from the seed; executed under the token-passing scheduler. Non-trivial = at least one preemption (a runnable task was switched away from) AND the reach probe fired (a task obtained a pooled buffer or entered a sink write while another task's sink write was unfinished). distinct = distinct hashes of the context-switch trace (task, yield site at every switch, environment actions)." + c.ruleExtra()
 }
 
 func (c c03) Decode(raw json.RawMessage) (any, error) {
